@@ -297,6 +297,9 @@ func c09Fatal(p *Prog, r *Report, e *engine) {
 	}
 	// RunFS / Run / runOnScanRoot forward the walk's error
 	for _, fn := range []*ssa.Function{e.RunFS, e.runOnScanRoot, e.Run} {
+		if fn == nil {
+			continue // runOnScanRoot written out in Run: Run forwards RunFS's error itself
+		}
 		fa := newFA(p, r, fn)
 		var src *ssa.Call
 		forEachInstr(fn, func(_ *ssa.BasicBlock, _ int, in ssa.Instruction) {
@@ -315,7 +318,7 @@ func c09Fatal(p *Prog, r *Report, e *engine) {
 					src = c
 				}
 			case e.Run:
-				if c.Call.StaticCallee() == e.runOnScanRoot {
+				if e.isPerRootCall(c.Common()) {
 					src = c
 				}
 			}
